@@ -239,6 +239,9 @@ func generate(seed uint64, focus, arm string) *plan.Plan {
 	case "C05", "C06", "C14", "C16":
 		return genXport(r, seed, focus, arm)
 	case "C18":
+		if arm == "latedial" {
+			return genLateDial(r, seed)
+		}
 		if arm == "xclose" {
 			p := genXport(r, seed, "C18x", arm)
 			p.Focus = "C18"
@@ -1394,4 +1397,48 @@ func genC15(r *rng, p *plan.Plan) {
 		add(pickSrc(si, light4, light6), r.i64(20_000, t), si)
 	}
 	rp.HorizonUs = t + 8_000_000 + 12_000_000
+}
+
+// genLateDial: Close around the completion of a dial that ignores its context.
+func genLateDial(r *rng, seed uint64) *plan.Plan {
+	p := &plan.Plan{Version: 1, Seed: seed, Family: "latedial", Focus: "C18", Arm: "latedial"}
+	ld := &plan.LateDialPlan{Kind: []string{"reuse", "pipeline", "quic"}[r.intn(3)]}
+	d := r.i64(200, []int64{2_000, 50_000, 800_000}[r.intn(3)])
+	ld.DialDelayUs = []int64{d}
+	if r.p(0.3) {
+		ld.DialDelayUs = append(ld.DialDelayUs, r.i64(200, 300_000))
+	}
+	ld.DialTimeoutUs = []int64{0, 100_000, 5_000_000}[r.intn(3)]
+	for n := r.rng(1, 4); n > 0; n-- {
+		ld.CallAtUs = append(ld.CallAtUs, r.i64(0, d+d/2+1000))
+	}
+	ld.CallLimitUs = []int64{300_000, 3_000_000, 8_000_000}[r.intn(3)]
+	// Close lands before, right at, or shortly after the first dial's completion
+	first := ld.CallAtUs[0]
+	for _, a := range ld.CallAtUs {
+		first = min(first, a)
+	}
+	switch r.intn(4) {
+	case 0:
+		ld.CloseAtUs = first + r.i64(1, d)
+	case 1:
+		ld.CloseAtUs = first + d + r.i64(-50, 50)
+	case 2:
+		ld.CloseAtUs = first + d + r.i64(0, 5_000)
+	default:
+		ld.CloseAtUs = r.i64(0, 2*d+2000)
+	}
+	if ld.CloseAtUs < 1 {
+		ld.CloseAtUs = 1
+	}
+	ld.SecondClose = r.p(0.3)
+	p.LateDial = ld
+	k := plan.Knobs{GetFill: r.intn(3)}
+	if r.p(0.7) {
+		k.YieldDensity = []float64{0.05, 0.2, 0.5}[r.intn(3)]
+		k.StallProb = []float64{0, 0.02}[r.intn(2)]
+		k.StallMaxUs = 2000
+	}
+	p.Knobs = k
+	return p
 }
